@@ -76,7 +76,7 @@ def model():
     if _M is None:
         from vt import prange
         import ImageD11.sinograms.properties as P
-        _M = prange.Model([P.numbalabelNd.py_func, P.get_clean_labels.py_func])
+        _M = prange.Model([P.numbalabelNd.py_func, P.get_clean_labels.py_func], extra_ns={"numba": __import__("numba")})
     return _M
 
 
